@@ -239,7 +239,7 @@ impl Game {
                 }
                 GgrsRequest::AdvanceFrame { inputs } => {
                     let f = self.g;
-                    let inputs: Vec<(u32, St)> = inputs.into_iter().map(|(v, s)| (v, s.into())).collect();
+                    let inputs: Vec<(u32, St)> = inputs.into_iter().map(|(v, s)| (C::dec(v), s.into())).collect();
                     self.trace.add_all(&[3, f as u64]);
                     for (v, s) in &inputs {
                         self.trace.add_all(&[*v as u64, *s as u64]);
